@@ -246,6 +246,34 @@ func rulesC18(c *Ctx) {
 				}
 			}
 		})
+		// the same pairing with the selection and the copy in two steps: a local receives the kind's own map under
+		// `n == <kind>` and that local is what maps.Clone copies
+		if len(got) == 0 {
+			ng := nf.Graph()
+			for _, w := range Writes(nf.Body, false) {
+				sel, isSel := ast.Unparen(w.RHS).(*ast.SelectorExpr)
+				if w.RHS == nil || !isSel || !strings.HasSuffix(sel.Sel.Name, "ChangeSubscriptions") {
+					continue
+				}
+				dst := nf.ObjOf(w.LHS)
+				cloned := false
+				for _, call := range nf.AllCalls(nf.Body, false) {
+					if fn := nf.Callee(call); fn != nil && fn.FullName() == "maps.Clone" && len(call.Args) == 1 && nf.ObjOf(call.Args[0]) == dst && dst != nil {
+						cloned = true
+					}
+				}
+				if !cloned {
+					continue
+				}
+				for _, a := range ng.GuardsAt(ng.VertexOf(w.Stmt)) {
+					if x, y, op, ok := binaryCmp(a.E); ok && op == token.EQL && a.Val && x != nil {
+						if id, isID := ast.Unparen(y).(*ast.Ident); isID {
+							got[id.Name] = sel.Sel.Name
+						}
+					}
+				}
+			}
+		}
 		same := len(got) == len(want)
 		for k, v := range want {
 			if got[k] != v {
